@@ -533,6 +533,18 @@ theorem checkConsistency_built_iff (s : Sequence) (hs : Sequence.ApiBuilt s)
   rw [checkConsistency_true_iff_conditions, G12.sameChannels_iff_set (G12.apiBuilt_innerWF hs)]
   simp [hSR]
 
+/-- the same with the three conditions spelled out: there are a sample rate `v` and a channel list
+    `chs` such that every stored entry reports `v` and a channel list with exactly the members of
+    `chs`; and position `k` is filled exactly for `1 ≤ k ≤ N`, `N` the number of stored entries -/
+theorem checkConsistency_built_iff_spelled_out (s : Sequence) (hs : Sequence.ApiBuilt s)
+    (hSR : Dict.has s.awgspecs "SR" = true) :
+    s.checkConsistency = .ok true ↔
+      (∃ v, ∀ x ∈ s.data, x.2.getSR = .ok v) ∧
+      (∃ chs : List Chan, ∀ x ∈ s.data, ∃ c, x.2.channels = .ok c ∧ ∀ ch, ch ∈ c ↔ ch ∈ chs) ∧
+      (∀ k : ℤ, (Dict.get? s.data k).isSome = true ↔ (1 ≤ k ∧ k ≤ s.data.length)) := by
+  rw [checkConsistency_built_iff s hs hSR, G12.filled_iff_positions (G12.apiBuilt_data_wf hs)]
+  rfl
+
 /-- **"... and False otherwise", never an error**: an API-built sequence with a sample rate whose
     stored subsequences all answer their own `channels` query (`SubsAnswer`; see
     `subsequence_answers_iff`: each is itself consistent and has its position 1 filled) gets a
